@@ -46,7 +46,14 @@ struct CallCtx {
   bool ok_nested_done = false;   // the operations attached at position -1 (performed by the OK reporter) have run
 };
 
-struct scope_abort {};   // thrown by the 'unwind' operation through the frames that own scoped expectations
+struct scope_abort {};
+// Runs f from a destructor while an exception is propagating (std::uncaught_exceptions() > 0): what happens to an object
+// that is destroyed by stack unwinding. f must not throw (the reports it may cause are non-fatal ones).
+struct unwind_probe {};
+template <class F> inline void run_during_unwinding(bool unwinding, F&& f) {
+  if (!unwinding) { f(); return; }
+  try { struct G { F& f; ~G() { f(); } } g{f}; throw unwind_probe{}; } catch (unwind_probe const&) {}
+}   // thrown by the 'unwind' operation through the frames that own scoped expectations
 struct RecTracer;
 struct StreamRec;
 
